@@ -50,7 +50,8 @@ BesideQuery == ("ops.graphql" :> "ops.rs") @@ ("user.query.graphql" :> "user.que
 
 \* (an output directory that does not exist is not part of the property: creating it or failing are both fine)
 Placement == {"beside", "outdir"}
-Programs == {"valid", "invalidQuery", "missingQuery", "badSchema"}
+\* "validWide": a valid document whose generated code is several hundred kilobytes (larger than any pipe buffer)
+Programs == {"valid", "validWide", "invalidQuery", "missingQuery", "badSchema"}
 
 Destination(qname, placement) ==
   IF placement = "beside" THEN "q/" \o BesideQuery[qname] ELSE "out/" \o RsName[qname]
@@ -74,7 +75,7 @@ Init == /\ flags \in [variables_derives : FlagValues.variables_derives, response
         /\ written = {}
         /\ exit = 99
 
-GenerationFails == program # "valid"
+GenerationFails == program \notin {"valid", "validWide"}
 
 Generate == /\ stage = "parsed"
             /\ IF GenerationFails THEN stage' = "failed" ELSE stage' = "generated"
@@ -103,6 +104,6 @@ Finished == exit # 99
 \* C19 in terms of the protocol
 SuccessWritesOneFile == (Finished /\ exit = 0) => Cardinality(written) = 1
 FailureWritesNothing == (Finished /\ exit # 0) => written = {}
-ExitReflectsOutcome  == Finished => (exit = 0 <=> (program = "valid" /\ placement # "outdirMissing"))
+ExitReflectsOutcome  == Finished => (exit = 0 <=> (~GenerationFails /\ placement # "outdirMissing"))
 Terminates == <>Finished
 =============================================================================
